@@ -26,7 +26,7 @@ PROPS["C33"] = dict(
                dict(module="D2Anim", cfg="D2Anim_ceil100.cfg", expect="violation", note="variant EndRule=ceil100 (pre-fix code rule) must break OneAtATime at n=101")],
         thorough=[dict(module="D2Anim", cfg="D2Anim_quick.cfg"), dict(module="D2Anim", cfg="D2Anim_thorough.cfg", timeout=1800),
                   dict(module="D2Anim", cfg="D2Anim_ceil100.cfg", expect="violation")]),
-    rule="(n boards, interval T ms) pairs: quick n in 1..24 plus {50,99,100,101,102,127,128,130} and 4 seed-chosen n, thorough every n in 1..130; T from a fixed set; n*T <= 1e6 ms. "
+    rule="(n boards, interval T ms) pairs: quick n in 1..24 plus {50,99,100,101,102,127,128,130} and 4 seed-chosen n, thorough every n in 1..130; T from {1, 2, 3, 10, 16, 100, 1000, 1200, 2000, 5000} (thorough also 7, 33, 250, 3000, 7500); n*T <= 1e6 ms. "
          "Non-trivial: n >= 2 and T >= 3 (a steady interval with interior sample instants exists).",
     exhaustive=dict(quick=False, thorough=True),
     assumptions=["CSS animation semantics as transcribed in AnimOps.tla (same-offset stops cascade, linear interpolation)",
@@ -475,8 +475,10 @@ _pipe_family("pipe_render", "render,render2,render3", "layout,render", 100, 600,
 FAMILIES["pipe_render"]["corrupt"] = corrupt_render
 _gen_render = ("mode render: 1-5 objects, all shapes, containers, styles, explicit sizes, icons, markdown, near constants, classes, tooltips and links; names, labels, tooltips and links carry XML metacharacters, quotes, "
                "control characters and the marker ZQXJ inside attribute-breaking and element-injecting payloads; dagre; per diagram 2 exports (a random catalog theme and one of the special-rule themes 300/301/303) and 3 renders "
-               "(pad 100 / random pad + sketch + random theme / centre + scale + dark theme 200|201 + 1-4 random colour overrides); 600 diagrams. ")
-_rn_assume = ["SVG tokenised with Go's strict encoding/xml (HTML entities allowed)", "element/attribute vocabulary = specs/svg_vocab.json, learnt by tools/learn_vocab.sh from the marker-free twin diagrams (modes render-plain, render2-plain) on the unchanged tree"]
+               "(pad 100 / random pad + sketch + random theme / centre + scale + dark theme 200|201 + 1-4 random colour overrides); 600 diagrams. "
+               "mode render2: boundary style values on shapes and connections, links on connections, 3d/multiple shapes with every outside label position, all special-rule themes, overrides for one colour scheme only; "
+               "mode render3: render2 plus connections with a border radius and labels with special characters on both arrowheads, exported under themes 300-303; 600 diagrams each. ")
+_rn_assume = ["SVG tokenised with Go's strict encoding/xml (HTML entities allowed)", "element/attribute vocabulary = specs/svg_vocab.json, learnt by tools/learn_vocab.sh from the marker-free twin diagrams (modes render-plain, render2-plain, render3-plain) on the unchanged tree"]
 _pp("C25", "pipe_render", "4.11", "Render stage determinism guard: the same input and options compiled, laid out and rendered again from 2 concurrent goroutines (while other diagrams are processed in up to 12 goroutines); TLC checks all SVG digests equal",
     _gen_render + "Non-trivial: every diagram.", "Determinism guard of the whole pipeline in one process.", ["separate processes and the race detector are not part of this check", "each run uses its own text ruler (textmeasure.Ruler is documented as not goroutine-safe)"])
 _pp("C28", "pipe_render", "4.11", "Export stage guard: TLC checks shapes <-> objects and connections <-> connections (with source and destination IDs) are bijections, and every style value the user set equals the exported one, under several themes incl. the special-rule themes",
@@ -531,9 +533,9 @@ _or_rule = ("the history space is FIXED and has three parts. (1) generator 1, hi
             "to a fresh container; with and without descendants) / reconnect. (2) generator 2, history #i: programs written the way people write them - names from a pool of four so that the same name occurs at several levels, "
             "objects declared as blocks, as flat dotted keys or with nested style maps, 25 attribute kinds, connections declared inside containers with relative names and at the root with dotted paths, ends that are declared "
             "nowhere else (implicit objects, identified by the connection they end; implicit containers, identified by their ID), scenarios that refer to base objects - and 1 + i mod 6 edits that additionally set and delete any "
-            "of 25 object and 15 connection attributes; the first edit of 4 histories in 6 is aimed (delete a container, move an untagged end, move a container, move a deeply nested object). (3) 16 written histories "
-            "(harness/cmd/vdrive/oraclescripts.go): the reproducers of every defect this family found. Every object or connection an edit creates is tagged before the next edit; an edit that is meant to change the ID of an "
-            "ID-identified object, or to remove the connection an object is identified by, is not applied. 3000 + 3000 generated histories + 16 written ones; quick takes the 1000 + 1000 that VERIF_SEED selects and the written ones. Non-trivial: ")
+            "of 25 object and 15 connection attributes; the first edit of 4 histories in 6 is aimed (delete a container, move an untagged end, move a container, move a deeply nested object). (3) 19 written histories "
+            "(harness/cmd/vdrive/oraclescripts.go): the reproducers of every defect this family found, Create with keys that are taken on the addressed (nested or root) board, and the deletion of an attribute a descendant also sets through a flat key. (4) 120 (thorough: 1200) import updates (oracleimports.go): a program importing 2-5 of 9 files from directories whose names are prefixes of one another (lib/, lib2/, libs/, foo, foobar, foo/bar) in every import form; a file is renamed, a directory (trailing slash) is renamed, an import is removed, or a path that only shares a prefix is renamed; the result must rewrite exactly the imports TLC computes on token lists, compile against the renamed file system and be formatter-stable. Every object or connection an edit creates is tagged before the next edit; an edit that is meant to change the ID of an "
+            "ID-identified object, or to remove the connection an object is identified by, is not applied. 3000 + 3000 generated histories + 19 written ones + the import updates; quick takes the 1000 + 1000 that VERIF_SEED selects, the written ones and 120 import updates. Non-trivial: ")
 _or_assume = ["identity of an object = its tooltip, of a connection = its label; IDs are derived data", "a refused edit may leave the graph it was given modified; the harness continues from a fresh compile of the last good text",
               "Delete of an attribute is exercised for the attributes d2oracle.Delete handles by design (style keywords, near, icon, width, height, top, left, link; any attribute of a connection); other reserved keys (shape, label, direction, grid-*) are ignored by Delete and are not exercised",
               "a crash of an edit is reported under C36"]
@@ -693,9 +695,9 @@ PROPS["C14"] = dict(family="imports", level="model_checking", design_ref="4.4",
                     base=dict(quick=[dict(module="D2IR", cfg="D2IR_quick.cfg", workers=8)], thorough=[dict(module="D2IR", cfg="D2IR_quick.cfg", workers=8)]),
                     rule=("the space of file sets is FIXED (set #i from seed i, 8,000 sets; quick takes the 1,000 VERIF_SEED selects): 1-4 files (index.d2, f2.d2, sub/f3.d2, sub/deep/f4.d2 in shuffled roles) of 0-3 declarations from the ir alphabet and 0-2 imports each, "
                           "written as  ...@f ,  key: @f ,  key: {...@f}  or  key: @f.sel  (one key of the file) at random positions, with the path spelled bare, with ./ or ../ and with or without the .d2 extension; acyclic sets import later files only (nested chains up to length 4), "
-                          "20% of the sets may import any file including themselves (cycles of every length). Non-trivial: the set contains an import."),
+                          "20% of the sets may import any file including themselves (cycles of every length). Every set is followed by an icon chain: 2-4 files in their own directories (lib/, lib/deep/, other/), each declaring one object with an icon (relative in several spellings incl. ./ and ../, absolute, URL) and importing the next one by spread, under a key or in a map; TLC computes the icon each object has to end up with from the import paths as written (dir(p1)/.../dir(pk)/icon, cleaned) - relative icons are rebased, absolute and remote ones and the importing file's own are not. Non-trivial: every set."),
                     exhaustive=dict(quick=True, thorough=True),
-                    assumptions=["relative links and icons and globs in imported files are not generated; the import of a single key (key: @f.sel) is generated in its non-spread form and has no textual twin", "explicit label fields, indexed deletions and globs are left out of the alphabet (see C15)",
+                    assumptions=["relative board links and globs in imported files are not generated in this family (links: see C35); the import of a single key (key: @f.sel) is generated in its non-spread form and has no textual twin", "explicit label fields, indexed deletions and globs are left out of the alphabet (see C15)",
                                  "the order of objects and connections is not compared", "termination: 20 s per compile"],
                     text="ExpandFile is the specification of importing; the cycle rule is the compiler's own stack discipline stated in TLA+.", note="Trusted: TLC, Json module, the file writer in harness/cmd/vdrive/imports.go, testing/fstest.MapFS.")
 
